@@ -477,6 +477,9 @@ def run(pid: str, tier: str, replay: str | None = None) -> int:
         if pid in ("C13", "C14"):
             from . import check_marker
             check_marker.marker_sessions(rep, (pid,), n_random=(6000 if thorough else 700), n_law=(4000 if thorough else 500), selfcheck=False)
+            if pid == "C14":
+                # oracle-free laws (commutativity, absorption) on every pair of the ==/!= group algebra, on the real classes
+                check_marker.group_algebra_mc(rep, pid, thorough)
         # ----------------------------------------------------------- B3: recorded sessions
         _b3(rep, pid, seed, n_random=(6000 if thorough else 700), n_law=(6000 if thorough else 500), tmp=tmp)
     finally:
